@@ -117,6 +117,7 @@ def run(ctx):
     ctx.extra["states"] = 6 * 64
     ctx.extra["transitions"] = len(cases)
     ctx.extra["accepted_edges"] = sorted(accepted_edges)
+    independence_search(ctx)
     # random histories on one connection object vs the model's script
     for run_i in range(ctx.scale(6, 60)):
         ops = []
@@ -155,6 +156,30 @@ def run(ctx):
     ctx.sample({"kind": "graph", "node": cases[1000][0:5], "edge": cases[1000][5:], "model": lib.v_text(model[1000])})
 
 
+def independence_search(ctx):
+    """several connection objects alive in one process are independent links: what happens on one (state, counters, buffered
+    bytes) is invisible on the others, and a new one always starts disconnected with zeroed counters and an empty buffer"""
+    a = H.new_conn()
+    steps = [(0, 0, 0, 0), (1, 1, 0, 0), (0, 3, 0, 0), (1, 3, 0, 1), (0, 3, 1, 1)]          # SNRM, UA, I, I, I
+    for n in range(len(steps) + 1):
+        if n:
+            impl_on(a, *steps[n - 1])
+            a.receive_data(b"\x7e\xa0")                       # a few unconsumed bytes stay in a's buffer
+        snap_a = H.snapshot(a)
+        b = H.new_conn()
+        ctx.tried("connections_independent", key=n)
+        if H.snapshot(b) != [0, 0, 0, 0, 0, 0, 1]:
+            ctx.fail("new_connection_not_fresh", {"independence": True, "after_steps": n}, "[0, 0, 0, 0, 0, 0, 1]", lib.v_text(H.snapshot(b)))
+            return
+        impl_on(b, 0, 0, 0, 0)                                  # SNRM on the new link
+        b.receive_data(b"\x7e")
+        if H.snapshot(a) != snap_a:
+            ctx.fail("connection_changed_by_another_connection", {"independence": True, "after_steps": n}, lib.v_text(snap_a), lib.v_text(H.snapshot(a)))
+            return
+        a.buffer.clear()
+        a.buffer_search_position = 1
+
+
 def impl_on(c, d, k, a, b):
     if d == 0:
         return guarded(lambda: c.send(build(frame_args(k, a, b, to_client=False)))).ok
@@ -169,6 +194,9 @@ def impl_on(c, d, k, a, b):
 
 def replay(ctx, rp):
     c = rp["case"]
+    if c.get("independence"):
+        independence_search(ctx)
+        return bool(ctx.failures)
     if "link" not in c:
         return True
     got = impl("link_step", c["link"] + [c["dir"], c["kind"], c["ssn"], c["rsn"]])
